@@ -270,7 +270,7 @@ SPEC = TreeSpec(
     nontrivial=nontrivial,
     extra=_extra,
     sample_of=sample_of,
-    quick_examples=60,
+    quick_examples=120,
     thorough_examples=400,
     tagged_boost=3,
     assumptions=(
